@@ -25,8 +25,38 @@ pub fn install_quiet_panic_hook() {
     }));
 }
 
+/// start of the library call in progress (every call of the library goes through `guarded`)
+static IN_CALL: std::sync::Mutex<Option<std::time::Instant>> = std::sync::Mutex::new(None);
+static WATCHDOG: std::sync::Once = std::sync::Once::new();
+/// a library call without answer after this long ends the harness with exit code 42: no verdict, but at once
+/// instead of at the check's time limit (the C07 harness has its own, earlier watchdog, which keeps the session)
+const GENERIC_HANG_MS: u128 = 180_000;
+
+fn ensure_watchdog() {
+    WATCHDOG.call_once(|| {
+        std::thread::spawn(|| loop {
+            std::thread::sleep(std::time::Duration::from_secs(1));
+            let t0 = IN_CALL.lock().map(|g| *g).unwrap_or(None);
+            if let Some(t0) = t0 {
+                if t0.elapsed().as_millis() > GENERIC_HANG_MS {
+                    eprintln!("harness watchdog: a library call has not returned after {} ms", t0.elapsed().as_millis());
+                    std::process::exit(42);
+                }
+            }
+        });
+    });
+}
+
 /// Run `f`, turning a panic into Err(description).
 pub fn guarded<R>(f: impl FnOnce() -> R) -> Result<R, String> {
+    ensure_watchdog();
+    let outer = IN_CALL.lock().map(|mut g| { let was = *g; if was.is_none() { *g = Some(std::time::Instant::now()); } was }).unwrap_or(None);
+    let r = guarded_inner(f);
+    if outer.is_none() { if let Ok(mut g) = IN_CALL.lock() { *g = None; } }
+    r
+}
+
+fn guarded_inner<R>(f: impl FnOnce() -> R) -> Result<R, String> {
     match panic::catch_unwind(AssertUnwindSafe(f)) {
         Ok(r) => Ok(r),
         Err(_) => Err(LAST_PANIC
